@@ -1,5 +1,5 @@
 #!/usr/bin/env python3
-"""Checks that every corpus entry's anchor text occurs exactly once in /repo (stale anchors are skipped at run time)."""
+"""Checks that every corpus entry's anchor text occurs exactly once in /repo (stale anchors are skipped at run time) and that every stored seeded patch still applies."""
 import json, glob, sys
 bad = 0
 for f in sorted(glob.glob('/verif/checker/testdata/mutants/*.json')):
@@ -14,5 +14,9 @@ for f in sorted(glob.glob('/verif/checker/testdata/mutants/*.json')):
                 bad += 1
                 break
             content[e["file"]] = cur.replace(e["old"], e["new"], 1)
+import subprocess, os
+for d in sorted(glob.glob('/verif/seeded/*/patch.diff')):
+    if subprocess.call(['git', '-C', '/repo', 'apply', '--check', d], stderr=subprocess.DEVNULL) != 0:
+        print("STALE seeded change %s: patch does not apply to /repo" % os.path.basename(os.path.dirname(d))); bad += 1
 print("stale entries:", bad)
 sys.exit(1 if bad else 0)
